@@ -53,12 +53,12 @@ var oidCanSignHTTPExchanges = asn1.ObjectIdentifier{1, 3, 6, 1, 4, 1, 11129, 2, 
 
 // CertOpts controls the generated certificate.
 type CertOpts struct {
-	CN       string
-	DNS      []string
-	Pad      int // extra bytes in the organisation name, to move the DER length
+	CN        string
+	DNS       []string
+	Pad       int // extra bytes in the organisation name, to move the DER length
 	NotBefore time.Time
-	Serial   int64
-	Parent   *x509.Certificate // nil = self-signed
+	Serial    int64
+	Parent    *x509.Certificate // nil = self-signed
 	ParentKey *ecdsa.PrivateKey
 }
 
@@ -72,13 +72,13 @@ func Cert(key *ecdsa.PrivateKey, o CertOpts) *x509.Certificate {
 		o.Serial = 1
 	}
 	tmpl := &x509.Certificate{
-		SerialNumber: big.NewInt(o.Serial),
-		Subject:      pkix.Name{CommonName: o.CN, Organization: []string{"verif" + strings.Repeat("x", o.Pad)}},
-		NotBefore:    nb,
-		NotAfter:     nb.Add(90 * 24 * time.Hour),
-		DNSNames:     o.DNS,
-		KeyUsage:     x509.KeyUsageDigitalSignature,
-		ExtraExtensions: []pkix.Extension{{Id: oidCanSignHTTPExchanges, Value: asn1.NullBytes}},
+		SerialNumber:          big.NewInt(o.Serial),
+		Subject:               pkix.Name{CommonName: o.CN, Organization: []string{"verif" + strings.Repeat("x", o.Pad)}},
+		NotBefore:             nb,
+		NotAfter:              nb.Add(90 * 24 * time.Hour),
+		DNSNames:              o.DNS,
+		KeyUsage:              x509.KeyUsageDigitalSignature,
+		ExtraExtensions:       []pkix.Extension{{Id: oidCanSignHTTPExchanges, Value: asn1.NullBytes}},
 		BasicConstraintsValid: true,
 	}
 	parent, pkey := tmpl, key
